@@ -21,7 +21,7 @@ RULE = ("synthetic trajectories of length 0..40 with non-decreasing distance and
         "inside or on the recorded span")
 MUST_OBSERVE = ["lookups", "empty_trajectories", "single_row_trajectories", "trajectories_with_repeats",
                 "sentinel_minus1", "sentinel_nan", "sentinel_arith", "nearest_ties", "apex_checked", "real_trajectories",
-                "negative_rejected"]
+                "negative_rejected", "trajectories_edited_in_place"]
 ASSUMPTIONS = ["the scan applies the same comparison (row value in the query's unit >= query) row by row",
                "apex: only single-peaked height sequences (strictly rising, optional plateau at the top, strictly falling)"]
 DIST = si.DIMENSIONS["Distance"]
@@ -74,8 +74,8 @@ def call(fn):
         return ("raise", type(exc).__name__)
 
 
-def check_traj(ctx, rows, case, extra=True):
-    hit = HitResult(dummy_shot(), rows, extra)
+def check_traj(ctx, rows, case, extra=True, hit=None):
+    hit = hit or HitResult(dummy_shot(), rows, extra)
     n = len(rows)
     times = [r.time for r in rows]
     nt_base = n >= 2
@@ -231,6 +231,26 @@ def run(ctx):
             case = {"kind": "synthetic", "rows": spec, "dist_queries": dq, "time_queries": tq,
                     "vel_queries": [rng.uniform(30, 1000)]}
             check_traj(ctx, rows, case)
+            if len(rows) >= 3 and rng.random() < 0.3:
+                # the same list object, edited in place (rows dropped / appended), looked up again through a HitResult that
+                # shares it - as when a caller trims or extends hit.trajectory
+                hit = HitResult(dummy_shot(), rows, True)
+                for unit_q in dq[:3]:
+                    helpers.find_index_of_point_for_distance(hit, unit_q[1], Unit[unit_q[0]])
+                    hit.index_at_distance(Unit[unit_q[0]](unit_q[1]))
+                for q, dev in tq[:3]:
+                    if q >= 0 and dev >= 0:
+                        helpers.find_index_for_time_point(hit, q, False, dev)
+                cut = rng.randrange(1, len(rows))
+                spec2 = spec[:cut] + spec[cut + 1:]
+                del rows[cut]
+                if rng.random() < 0.5:
+                    last = spec2[-1]
+                    extra = [round(last[0] + 0.2, 6), round(last[1] + 37.0, 4), -1.0, 500.0, 8]
+                    spec2 = spec2 + [extra]
+                    rows.extend(mk_rows([extra]))
+                ctx.count("trajectories_edited_in_place")
+                check_traj(ctx, rows, dict(case, rows=spec2, edited_in_place=True), hit=hit)
         elif k < 0.85:
             up = rng.randint(0, 12)
             top = rng.choice([1, 1, 2, 3])
